@@ -118,7 +118,7 @@ def main(argv=None):
     nviol_total = sum(merged.vcount.values())
     coverage = {
         "evaluations": merged.evals,
-        "distinct_nontrivial": len(merged.keys),
+        "distinct_nontrivial": (len(merged.keys) + merged.kcount),
         "rule": mod.RULE,
         "samples": merged.samples[: core.MAX_SAMPLES],
         "distinct_outcomes": len(merged.outcomes),
@@ -130,7 +130,7 @@ def main(argv=None):
     }
     if mod.LEVEL == "model_checking":
         coverage["states"] = len(merged.states)
-        coverage["transitions"] = len(merged.transitions)
+        coverage["transitions"] = len(merged.transitions) + merged.tcount
         coverage["traces_validated_against_impl"] = merged.traces
     if merged.notes:
         coverage["notes"] = merged.notes
@@ -155,8 +155,8 @@ def main(argv=None):
     st = "HELD" if rc == 0 else ("VIOLATED" if rc == 1 else "NO-VERDICT")
     print(
         f"{st} property={pid} tier={args.tier} seed={seed} evaluations={merged.evals} "
-        f"distinct_nontrivial={len(merged.keys)} outcomes={len(merged.outcomes)} "
-        + (f"states={len(merged.states)} transitions={len(merged.transitions)} traces={merged.traces} " if mod.LEVEL == "model_checking" else "")
+        f"distinct_nontrivial={(len(merged.keys) + merged.kcount)} outcomes={len(merged.outcomes)} "
+        + (f"states={len(merged.states)} transitions={len(merged.transitions) + merged.tcount} traces={merged.traces} " if mod.LEVEL == "model_checking" else "")
         + f"wall={wall:.1f}s evidence={os.path.relpath(path, VERIF_DIR)}"
     )
     return rc
